@@ -281,7 +281,7 @@ func c0809Insts(k int64) []Inst {
 var c0809Bounds = map[string]string{
 	"histories":     "fresh session, k events (quick k = 3, thorough k = 4): first event fixed per instance, the others chosen symbolically among CONNECT (will flag, clean session, keep-alive incl. 0, client ID symbolic), AUTH with a 5-byte method (PLAIN reachable) and 3 or 4 symbolic data bytes, AUTH with a 1-byte method, WILLTOPIC (2 bytes / empty), WILLMSG (1 byte / empty), broker CONNACK (return code symbolic) when a CONNECT is pending",
 	"configuration": "auth on/off, gateway credentials absent/present (1 symbolic byte each)",
-	"session":       "CONNECT (with / without will), AUTH PLAIN (2 user + 3 password bytes symbolic), WILLTOPIC, WILLMSG (symbolic) through the real run() and snReceiveLoop: the MQTT CONNECT carries exactly those credentials and that will",
+	"session":       "CONNECT (with / without will), AUTH PLAIN (2 user + 3 password bytes symbolic), WILLTOPIC, WILLMSG (20 symbolic bytes) through the real run() and snReceiveLoop: the MQTT CONNECT carries exactly those credentials and that will",
 	"oracle":        "reference state machine of the connect exchange + reference SASL PLAIN splitter + independent MQTT CONNECT parser",
 }
 
